@@ -24,6 +24,33 @@ PROPS["C12"] = {
     "partial": "",
 }
 
+PROPS["C09"] = {
+    "theorems": [
+        {"name": "C09_accepts", "status": "proved", "statement": "forall in-range (opslimit, memlimit, outlen >= 16, salt >= 8 bytes; lengths < 2^32, outlen < 2^32 - 1), both algorithms: crypto_pwhash = Ok h with |h| = outlen (never Err / panic)"},
+        {"name": "C09_rejects", "status": "proved", "statement": "forall parameters not in range (opslimit, memlimit as passed by the caller, before the u32 narrowing; outlen < 16; salt < 8 bytes): crypto_pwhash = Err"},
+        {"name": "C09_longhash_is_Hprime", "status": "proved", "statement": "forall T in 5 .. 2^32 - 2, forall input: blake2b::longhash = RFC 9106 H' (the chunk-count arithmetic across the 64-byte and 32-byte-step boundaries), with BLAKE2b itself proved = RFC 7693"},
+        {"name": "C09_prehash_is_H0", "status": "proved", "statement": "forall inputs (lengths < 2^32): the sequence of State::update calls of argon2_initial_hash hashes exactly RFC 9106's H0 input LE32(p)||LE32(T)||LE32(m)||LE32(t)||LE32(v)||LE32(y)||LE32(|P|)||P||LE32(|S|)||S||LE32(|K|)||K||LE32(|X|)||X, m being the requested (not the rounded) memory"},
+        {"name": "C09_memory_rounding", "status": "proved", "statement": "forall 8 <= m < 2^32, one lane: memory_blocks = 4*floor(m/4), segment_length = floor(m/4) >= 2, 0 <= m - memory_blocks < 4"},
+        {"name": "C09_index_is_rfc", "status": "proved", "statement": "forall positions the filling loop visits, forall 32-bit J1, segment length 2 .. 2^32/7: index_alpha in wrapping u32/u64 arithmetic = RFC 9106's reference-set mapping over unbounded integers (no wrap)"},
+        {"name": "C09_index_safe", "status": "proved", "statement": "the referenced block is inside the lane; first pass: already written (same lane: before the previous block; other lane: earlier slice); later passes: never the block being written nor (same lane) the previous one, never the current segment of another lane"},
+        {"name": "C09_verify_iff", "status": "proved", "statement": "PwHash::verify = Ok iff re-hashing the offered password with the stored salt and config gives exactly the stored bytes (so it accepts the password that produced the hash; rejecting every other password is Argon2 collision resistance)"},
+        {"name": "C09_rfc9106_argon2id", "status": "proved", "statement": "TEST (vm_compute): the model reproduces RFC 9106 section 5.3 (t=3, m=32, p=4, secret, associated data)"},
+        {"name": "C09_rfc9106_argon2i", "status": "proved", "statement": "TEST (vm_compute): the model reproduces RFC 9106 section 5.2"},
+        {"name": "C09_example", "status": "proved", "statement": "non-vacuity of the hypotheses"},
+    ],
+    "gen_obligations": ["GenTie.blake2b_tables_tie", "GenTie.blake2b_params_tie"],
+    "builds": ["stable"],
+    "rule": "output lengths (every residue mod 32 around 64, 96, 128; 16..1100) x both algorithms at 8 KiB; password lengths 0..300 (thorough: all; quick: the BLAKE2b block edges of the pre-hash); pass counts 1..6 x memory sizes 8 KiB..1 MiB (thorough: every KiB 8..64, up to 4 MiB) including non-multiples of 4 KiB and of 1 KiB; salts of 8..100 bytes; out-of-range opslimit / memlimit (incl. values whose low 32 bits are in range) / outlen 0..15 / salt 0..7; PwHash::hash_with_salt / verify with near-miss passwords and resized stored hashes. "
+            "search: libsodium wherever its interface applies (16-byte salt; t >= 3 for Argon2i). correspondence: the extracted model for the small-memory cases and everything libsodium cannot take. non-trivial: all cases (each reaches the hash or its validation)",
+    "modelled": ["src/argon2.rs is modelled by hand (Impl/Argon2.v: flat memory, fill_segment offsets, index_alpha with explicit u32/u64 wrap, generate_addresses, fill_block with the 16 index lists), validated on the two RFC 9106 vectors inside Coq and tied to the crate by correspondence",
+                 "Vec indexing is totalised with nth (Refine proves the reference index in range; the prev/curr offsets are in range by construction of the loop, checked by correspondence)",
+                 "BLAKE2b: Impl/Blake2b.v proved = RFC 7693; tables regenerated from the source each run"],
+    "assumptions": ["libsodium's crypto_pwhash is the reference for 'equals libsodium'",
+                    "'rejects every other password' beyond verify_iff: Argon2 / BLAKE2b collision resistance",
+                    "lanes of more than 2^32/7*4 blocks (> 2.29 TiB) are outside C09_index_is_rfc: there the u32 sum wraps (Remark index_alpha_wraps_beyond_bound), as in the reference C code"],
+    "partial": "accept/reject, H', H0, rounding, index mapping proved; the block-filling recurrence as a whole is tied by RFC vectors + correspondence + libsodium, not proved equal to RFC 9106's B[i][j]",
+}
+
 _SYM_MODELLED = ["XSalsa20 / ChaCha20 / HChaCha20 are the external crates salsa20 / chacha20 (and hand-written cores): modelled by Coq specifications (Spec/Salsa20.v, Spec/ChaCha20.v) and tied by correspondence only",
                  "Poly1305: hand-written model of poly1305_soft.rs (Impl/Poly1305.v) tied by correspondence (incl. adversarial carry operands)",
                  "subtle::ct_eq modelled as byte-string equality; zeroize not modelled"]
